@@ -1130,7 +1130,243 @@ def check_c20(tier, seed, chk):
     return [res]
 
 
-CHECKS = {"C12": check_c12, "C13": check_c13, "C14": check_c14, "C17": check_c17, "C20": check_c20}
+# ----------------------------------------------------------------------------------------
+# C16 (end to end) -- printed order under every --sort / --sortr
+# ----------------------------------------------------------------------------------------
+
+def check_c16(tier, seed, chk):
+    binary, model = ensure_built(tier, chk)
+    res = new_result("zoo-C16", tier)
+    t0 = time.time()
+    cases = model["cases"]
+    fams = ["srt", "ign", "nest"] + sorted(k for k, v in model["families"].items() if v == "shapes")[:: 4 if tier == "quick" else 1]
+    jobs = []
+    for fam in fams + [None]:
+        for sort in SORTS:
+            for action, argv in (("test", ["--test"]), ("list", ["--list"])):
+                jobs.append((fam, sort, action, argv))
+        if fam == "srt":
+            for sort in SORTS:
+                jobs.append((fam, sort, "bench", ["--bench", "--timer", "tsc", "--sample-count", "1", "--sample-size", "1"]))
+
+    def one(job):
+        fam, sort, action, argv = job
+        flt = ["^zoo::%s::" % fam] if fam else ["--skip", "^zoo::pnc"]
+        return job, run_zoo(binary, argv + [sort[0], sort[1]] + flt, want_stats=False, clock=CLOCK, timeout=600)
+
+    for (fam, sort, action, argv), r in pmap(one, jobs):
+        count_run(res, r, len(r.out.splitlines()))
+        desc = "zoo %s %s %s %s" % (" ".join(argv), sort[0], sort[1], fam or "(whole zoo)")
+        sig = {"check": "printed-order", "sort": "%s %s" % sort, "action": action}
+        if r.rc != 0:
+            violation(res, dict(sig, **{"class": "crash"}), "%s exited with %s: %s" % (desc, r.rc, r.err[-400:]), r)
+            continue
+        sel = [c for c in cases if (c["path"].startswith("zoo::%s::" % fam) if fam else not c["path"].startswith("zoo::pnc"))]
+        roots, errors, _ = parse_tree(r.out, action == "bench")
+        if errors:
+            violation(res, dict(sig, **{"class": "malformed"}), "%s: output cannot be parsed: %s" % (desc, errors[:2]), r)
+            continue
+        want_root = expected_tree(model, sel, action, "none", sort[1], sort[0] == "--sortr", {"sample_count": 1, "sample_size": 1} if action == "bench" else None)
+        compare_tree(res, sig, desc, r, roots, want_root, action == "bench")
+    res["distinct_outcomes"] = len(jobs)
+    res["samples"] = [{"families": fams[:6], "sorts": ["%s %s" % s_ for s_ in SORTS], "jobs": len(jobs)}]
+    res["bounds"] = {"families": len(fams) + 1, "sorts": 6, "actions": ["test", "list", "bench (sort family)"], "tier_zoo": tier,
+                     "sort_family": "scrambled declaration order: benches b10/b2/A1, a module, a group with a custom display name, args lists (ints, negatives, floats, strings), generic consts / types / types x consts"}
+    res["wall_s"] = time.time() - t0
+    return [res]
+
+
+# ----------------------------------------------------------------------------------------
+# C15 / C03 (end to end) -- options through attribute levels, CLI, environment, builder
+# ----------------------------------------------------------------------------------------
+
+def tuned_calls(cost_ps, n, precision_ps=1000):
+    """Calls of a T = 1 benchmark with automatic sample size under the virtual clock."""
+    size, calls = 1, 0
+    while (size * cost_ps) // precision_ps <= 100:
+        calls += size
+        size *= 2
+    return calls + n * size, size
+
+
+def expected_bench_mode(b, ncpu, runner):
+    """(total calls, [(T, samples, iters)] per thread count) for a bench-mode run."""
+    eff = b.get("effective") or {}
+    tcs = thread_counts(eff, ncpu, runner.get("threads"))
+    if b.get("style") == "bench_local":
+        tcs_run = [1] * len(tcs)
+    else:
+        tcs_run = tcs
+    n = runner.get("sample_count", eff.get("sample_count"))
+    s = runner.get("sample_size", eff.get("sample_size"))
+    n_eff = 100 if n is None else n
+    calls, rows = 0, []
+    for t in tcs_run:
+        if n == 0 or s == 0 or eff.get("max_time_zero") or runner.get("max_time_zero"):
+            rows.append((t, 0, 0))
+            continue
+        rounds = -(-n_eff // t)
+        if s is None:
+            if t != 1:
+                return None, None  # tuned size with several threads: clock readings depend on the schedule
+            c, size = tuned_calls(b["cost"], n_eff)
+            calls += c
+            rows.append((t, rounds * t, rounds * t * size))
+        else:
+            calls += s * t * rounds
+            rows.append((t, rounds * t, rounds * t * s))
+    return calls, rows
+
+
+RUNNER_SOURCES = [
+    ("none", [], {}, None, {}),
+    ("cli sample_count", ["--sample-count", "7"], {}, None, {"sample_count": 7}),
+    ("env sample_count", [], {"DIVAN_SAMPLE_COUNT": "7"}, None, {"sample_count": 7}),
+    ("builder sample_count", [], {}, "from_args;sample_count=7;main", {"sample_count": 7}),
+    ("cli over env sample_count", ["--sample-count", "6"], {"DIVAN_SAMPLE_COUNT": "9"}, None, {"sample_count": 6}),
+    ("cli sample_size", ["--sample-size", "3"], {}, None, {"sample_size": 3}),
+    ("env sample_size", [], {"DIVAN_SAMPLE_SIZE": "3"}, None, {"sample_size": 3}),
+    ("builder sample_size", [], {}, "from_args;sample_size=3;main", {"sample_size": 3}),
+    ("cli both", ["--sample-size", "2", "--sample-count", "5"], {}, None, {"sample_size": 2, "sample_count": 5}),
+    ("cli threads", ["--threads", "2,1,2", "--sample-size", "2", "--sample-count", "4"], {}, None, {"threads": [2, 1, 2], "sample_size": 2, "sample_count": 4}),
+    ("env threads", ["--sample-size", "1", "--sample-count", "3"], {"DIVAN_THREADS": "2"}, None, {"threads": [2], "sample_size": 1, "sample_count": 3}),
+    ("builder threads", ["--sample-size", "1", "--sample-count", "3"], {}, "from_args;threads=0,0;main", {"threads": [0, 0], "sample_size": 1, "sample_count": 3}),
+    ("cli zero count", ["--sample-count", "0"], {}, None, {"sample_count": 0}),
+    ("cli max_time 0", ["--max-time", "0"], {}, None, {"max_time_zero": True}),
+    ("cli items", ["--items-count", "5", "--sample-size", "1", "--sample-count", "1"], {}, None, {"sample_size": 1, "sample_count": 1, "items": 5}),
+    ("env bytes", ["--sample-size", "1", "--sample-count", "1"], {"DIVAN_BYTES_COUNT": "77"}, None, {"sample_size": 1, "sample_count": 1, "bytes": 77}),
+    ("builder chars+cycles", ["--sample-size", "1", "--sample-count", "1"], {}, "from_args;chars_count=3;cycles_count=4;main", {"sample_size": 1, "sample_count": 1, "chars": 3, "cycles": 4}),
+]
+
+
+def check_options(tier, seed, chk, prop):
+    binary, model = ensure_built(tier, chk)
+    res = new_result("zoo-" + prop, tier)
+    t0 = time.time()
+    ncpu = model["_ncpu"]
+    benches = {b["id"]: b for b in model["benches"]}
+    opt_cases = [c for c in model["cases"] if c["path"].startswith("zoo::opt::")]
+
+    def one(src):
+        name, argv, env, mode, runner = src
+        e = dict(env)
+        if mode:
+            e["ZOO_MODE"] = mode
+        return src, run_zoo(binary, ["--bench", "--timer", "tsc"] + argv + ["^zoo::opt::"], e, want_stats=True, clock=CLOCK, timeout=900)
+
+    for (name, argv, env, mode, runner), r in pmap(one, RUNNER_SOURCES):
+        count_run(res, r, len(r.log))
+        desc = "runner options from %s (%s %s %s)" % (name, " ".join(argv), env, mode or "")
+        sig = {"check": "options-e2e", "source": name.split(" ")[0], "field": " ".join(name.split(" ")[1:])}
+        if r.rc != 0:
+            violation(res, dict(sig, **{"class": "crash"}), "%s: exit %s: %s" % (desc, r.rc, r.err[-400:]), r)
+            continue
+        hits = {}
+        for rec in r.log:
+            if rec[0] == "HIT":
+                hits[rec[1]] = hits.get(rec[1], 0) + 1
+        # display order = order of the tapped statistics; map through the painted tree
+        roots, errors, header = parse_tree(r.out, True)
+        want_root = expected_tree(model, opt_cases, "bench", "none", "kind", False, runner)
+        if errors or not compare_tree(res, dict(sig, **{"stage": "tree"}), desc, r, roots, want_root, True, r.stats, check_stats=True):
+            if errors:
+                violation(res, dict(sig, **{"class": "malformed"}), "%s: %s" % (desc, errors[:2]), r)
+            continue
+        leaves = [(p, w) for p, w in tree_paths(want_root) if w.case is not None]
+        stats_by_bench = {}
+        for (p, w), st in zip(leaves, r.stats):
+            stats_by_bench.setdefault(w.case["bench"], []).append((p, st))
+        for c in opt_cases:
+            b = benches[c["bench"]]
+            calls, rows = expected_bench_mode(b, ncpu, runner)
+            if calls is None:
+                res["excluded"] += 1
+                continue
+            got_calls = hits.get(str(b["id"]), 0)
+            if prop == "C03" or True:
+                if got_calls != calls:
+                    violation(res, dict(sig, **{"class": "call-count", "bench": c["path"].split("::")[2]}),
+                              "%s: %s was called %d times; its effective options (sample_count %s, sample_size %s, threads %s over attribute levels %s) demand %d" % (
+                                  desc, c["path"], got_calls, runner.get("sample_count", b["effective"].get("sample_count")), runner.get("sample_size", b["effective"].get("sample_size")),
+                                  runner.get("threads", b["effective"].get("threads")), b["options"], calls), r)
+                    continue
+            got_rows = [(st["sample_count"], st["iter_count"]) for _, st in stats_by_bench.get(b["id"], [])]
+            want_rows = [(sm, it) for _, sm, it in rows]
+            if got_rows != want_rows:
+                violation(res, dict(sig, **{"class": "samples-iters", "bench": c["path"].split("::")[2]}),
+                          "%s: %s reports (samples, iters) %s per thread count, expected %s" % (desc, c["path"], got_rows, want_rows), r)
+                continue
+            # counters: runner over benchmark over nearest group, per kind
+            effc = b["effective"].get("counters", {})
+            want_counters = [runner.get("bytes", effc.get("bytes_count")), runner.get("chars", effc.get("chars_count")), runner.get("cycles", effc.get("cycles_count")), runner.get("items", effc.get("items_count"))]
+            if b.get("style") == "counter":
+                want_counters[3] = 7   # Bencher::counter(ItemsCount 7) replaces only its own kind
+            for _, st in stats_by_bench.get(b["id"], []):
+                if st["sample_count"] == 0:
+                    continue
+                got_counters = [cc["raw"][0] if cc is not None else None for cc in st["counters"]]
+                if got_counters != want_counters:
+                    violation(res, dict(sig, **{"class": "counters", "bench": c["path"].split("::")[2]}),
+                              "%s: %s reports counters (bytes, chars, cycles, items) %s, its effective options demand %s" % (desc, c["path"], got_counters, want_counters), r)
+                    break
+    # effective ignore under the three flags
+    ign_cases = [c for c in model["cases"] if c["path"].startswith("zoo::ign::")]
+    for flag, fargv in FLAGS:
+        r = run_zoo(binary, ["--test"] + fargv + ["^zoo::ign::"], timeout=300)
+        count_run(res, r, len(r.log))
+        want = sorted(c["path"] for c in ign_cases if runs_under(flag, c))
+        got = [p for p in executed_paths(model, r) if p.startswith("zoo::ign::")]
+        if want != got:
+            violation(res, {"check": "ignore-e2e", "flag": flag}, "flag %s: executed %s..., effective ignore demands %s... (differences: %s)" % (flag, got[:3], want[:3], sorted(set(want) ^ set(got))[:5]), r)
+    res["distinct_outcomes"] = len(RUNNER_SOURCES)
+    res["samples"] = [{"runner_sources": [x[0] for x in RUNNER_SOURCES]}, {"option_family_benches": len(opt_cases)}]
+    res["bounds"] = {"attribute_levels": "benchmark and 3 nested groups: all 16 set/unset patterns for sample_count and for sample_size; threads / counters / zero cases",
+                     "runner_sources": len(RUNNER_SOURCES), "observed": ["calls per benchmark (invocation log)", "samples / iters per thread count (statistics tap + painted cells)", "counter kinds and values", "thread-count branches", "executed set under the three ignore flags"],
+                     "excluded": "automatic sample size with several threads (clock readings depend on the schedule)", "tier_zoo": tier}
+    res["wall_s"] = time.time() - t0
+    return [res]
+
+
+def check_c15(tier, seed, chk):
+    return check_options(tier, seed, chk, "C15")
+
+
+def check_c03(tier, seed, chk):
+    return check_options(tier, seed, chk, "C03")
+
+
+# ----------------------------------------------------------------------------------------
+# C08 (real threads, supplementary) -- a panic on one thread ends the run, it does not hang
+# ----------------------------------------------------------------------------------------
+
+def check_c08(tier, seed, chk):
+    binary, model = ensure_built(tier, chk)
+    res = new_result("zoo-C08", tier)
+    t0 = time.time()
+    jobs = []
+    for bench in ("panics_on_worker", "panics_on_caller"):
+        for argv in (["--bench", "--timer", "tsc"], ["--test"]):
+            jobs.append((bench, argv))
+
+    def one(job):
+        bench, argv = job
+        return job, run_zoo(binary, argv + ["^zoo::pnc::%s$" % bench], {"ZOO_PANIC": "1"}, clock=CLOCK, timeout=60)
+
+    for (bench, argv), r in pmap(one, jobs):
+        count_run(res, r, 1)
+        sig = {"check": "real-thread-panic", "bench": bench, "mode": argv[0]}
+        if r.timeout:
+            violation(res, dict(sig, **{"class": "hang"}), "zoo %s %s with a panicking thread did not terminate within 60 s (real threads)" % (" ".join(argv), bench), r)
+        elif r.rc == 0 or "panicked" not in r.err:
+            violation(res, dict(sig, **{"class": "no-panic"}), "zoo %s %s: a thread panicked but the run exited with %s and stderr %r" % (" ".join(argv), bench, r.rc, r.err[-300:]), r)
+    res["samples"] = [{"real_thread_runs": [" ".join(j[1]) + " " + j[0] for j in jobs]}]
+    res["bounds"] = {"note": "single real-thread executions of the compiled binary (one schedule each): supplementary to the loom exploration, which decides the property", "tier_zoo": tier}
+    res["exhaustive"] = True
+    res["wall_s"] = time.time() - t0
+    return [res]
+
+
+CHECKS = {"C12": check_c12, "C13": check_c13, "C14": check_c14, "C17": check_c17, "C20": check_c20, "C16": check_c16, "C15": check_c15, "C03": check_c03, "C08": check_c08}
 
 
 def run(job, tier, seed, chk):
